@@ -54,6 +54,27 @@ kinds of file object (spec/ArMember.tla, variable fdk; harness/fobj_c06.py): ArF
            fobj_c06.py), a buffered window into a larger container file.  The kind is part of the recorded mode
            ("shared:gzip"), so a replayed case uses the same one.  Expectations do not depend on the kind (TLC's case
            / the trace validated by TLC / io.BytesIO are the same).
+faults of the caller's file object (notes/SIZE_STRESS.md part 5; spec: constant Faults, actions AFault / AShort / AOpenFault of
+           ArMemberRef, FaultOne / FaultLines of ArMember, TFault / TShort / TOpenFault of TraceArMember).  The file object given
+           to ArFile(fileobj=f) is the caller's and may fail at any step of a call.  Half of the shared sessions of every leg
+           hand ArFile the harness' FaultProxy (fobj_c06.py) around a file object of the rotating kind (mode "shared:<kind>+f");
+           a call of the history can then be hit by a fault: the at-th seek / read / readline / tell of the file object during
+           that call raises (OSError, ValueError, KeyError, EOFError, InterruptedError, a private exception class; before or
+           after the underlying operation took effect) or the at-th read / readline delivers short (0, 1, 2, 5, 100, all but one
+           byte).  Verdicts come from the model: the very exception of the file object comes out (or one chained to it) and the
+           position is unchanged (read / readline forms) or behind the k lines already consumed (readlines / list(member));
+           after a short delivery the bytes returned are exactly the member's next bytes and the position is behind them (what
+           io.BytesIO would have returned is NOT required there: the statement does not cover a file object that lies about its
+           content; raising on a short delivery is unspecified and re-synchronised by an ordinary seek).  A fault that is not
+           reached, or that the implementation absorbs, leaves an ordinary call, judged as such.  THEN THE HISTORY GOES ON: the
+           retry of the same call, calls on the other members, further faults.  Where: TLC's LTS has fault edges from every
+           state (replayed behind a short random history + absolute seeks to the edge's state, followed by the retry; in walks;
+           in all depth-2 paths); recorded traces and the size-stress / aligned legs draw fault episodes (some reading call at
+           one position, a reading call at another position that fails, the retry, another call); a volume leg (fault_leg) runs
+           episodes only, on members of 5 bytes .. 20 KB; "+f<j>" sessions first call ArFile(fileobj=f) with a fault at step j of
+           the index walk (the exception must come out) and repeat it on the rewound file object -- every other index case of
+           TLC is replayed that way.  By-name sessions open their files themselves: no caller-supplied object, no faults.
+           Negative control: CommitAfterRead = FALSE (position committed before the underlying read) violates Refines.
 domain (DESIGN D4): read() / read(n) with n >= 1 or n < 0 (read(0) excluded), readline(n) any n,
            readlines() without hint, seek(off, whence) with a non-negative target; the return
            value of seek() is not compared (ArMember.seek returns None like Python 2 files).
@@ -71,6 +92,9 @@ objects are created through one variant and queried through others within one hi
   ArFile(fileobj=f), f non-seekable (pipe, socket), a RAW stream with short reads, mmap.mmap, a text-mode file
                                    out of domain: ArFile needs seek/tell, reads the 60-byte header with ONE read(60),
                                    calls readline(size) (mmap.readline takes no argument) and compares bytes
+  ArFile(fileobj=f), f failing     all legs ("+f" sessions, see "faults of the caller's file object"): f raises at step j of
+                                   ArFile() / of a member call, or delivers short during a member call; a short delivery DURING
+                                   ArFile() (the 60-byte header cut) is out of domain like short raw streams
   ArFile(filename AND fileobj)     out of domain: undocumented combination (filename wins, fileobj ignored)
   ArFile(mode != "r")              out of domain: "the only supported mode is 'r'" (no index is built)
   ArFile(encoding=, errors=)       index replay + recorded traces: names beyond ASCII (NFC/NFD twins, singletons,
@@ -137,7 +161,7 @@ from lts import LTS, skey, strip
 MANIFEST = dict(
     technique="TLA+ spec (ArMemberRef reference with io.BytesIO semantics + ArMember implementation layer over a flat cell archive) model-checked by TLC; complete reference LTS and index cases replayed on real archives through ArFile(fileobj) and ArFile(filename) with io.BytesIO as second oracle; recorded histories validated by TLC (TraceArMember)",
     text="TLC explores the closed state space of the implementation-level model of arfile.py (archive as one flat cell sequence with headers and pad bytes, index walk, per-member offset/end/cur, one shared or per-member file position) for every archive of up to 2 members with up to 3 data bytes over {newline, other} and checks in every reachable state / on every transition that it refines independent BytesIO-like files (same cells returned, same positions), that no cell outside the member is returned and that the member table is exact, i.e. for interleaved histories of any length over that alphabet. The binding is two-way: every transition of the reference LTS, random interleaved walks and the emitted index cases (duplicate names, empty/odd/even sizes, 0 members) are replayed on real archives in both opening modes with all members' tell() compared after each call, and random histories on larger archives (5 members, 64 bytes, archives written by GNU ar) are validated by TLC against the same actions. A process-level model (ArMemberProc: path contents, ArFile objects, rewrite of a path in place or by rename, close) is model-checked and its complete LTS replayed on real files, and all by-name legs re-use a handful of path names with earlier archives' members left unclosed, so that what an archive opened by name returns cannot silently depend on what the process opened under that name before.",
-    note="Small-scope: model archives have <= 2 members x <= 3 cells (index: <= 3 members); concretization of cells to bytes (1-5 bytes per cell, arbitrary non-newline bytes) is sampled. Domain D4: read(0) excluded, non-negative seek targets, readlines(h>=1) advisory (any complete-line result reaching the hint or the end); seek()'s return value is not compared. list(member)/for-loops must yield every remaining line (the single-line generator found by this check was repaired in 225a5e1; the old behaviour is a spec-level negative control and a history mutant). Member sizes beyond 257 bytes are judged through K-scaled TLC cases and io.BytesIO, not scanned by TLC. Trusted: TLC, the harness' ar writer, io.BytesIO. Members of an archive whose file was replaced underneath them are unspecified (executed, not judged). The shared file object rotates over every kind ArFile(fileobj=) accepts (in-memory, buffered / unbuffered / short-read real files, gzip/bz2/lzma wrappers, spooled files, tar and zip members, a window into a container); the model's variable fdk (what the descriptor underneath says) is part of every emitted index case. zipfile.ZipExtFile only for archives <= 500 bytes (its readline(limit) overshoots in CPython 3.12). Spec-level negative controls (ClampReadline/PadOdd/SeekFirst = FALSE, SharedHandlePerPath = TRUE, TrustFd = TRUE) and corrupted control traces are required to fail in every run.",
+    note="Small-scope: model archives have <= 2 members x <= 3 cells (index: <= 3 members); concretization of cells to bytes (1-5 bytes per cell, arbitrary non-newline bytes) is sampled. Domain D4: read(0) excluded, non-negative seek targets, readlines(h>=1) advisory (any complete-line result reaching the hint or the end); seek()'s return value is not compared. list(member)/for-loops must yield every remaining line (the single-line generator found by this check was repaired in 225a5e1; the old behaviour is a spec-level negative control and a history mutant). Member sizes beyond 257 bytes are judged through K-scaled TLC cases and io.BytesIO, not scanned by TLC. Trusted: TLC, the harness' ar writer, io.BytesIO. Members of an archive whose file was replaced underneath them are unspecified (executed, not judged). The shared file object rotates over every kind ArFile(fileobj=) accepts (in-memory, buffered / unbuffered / short-read real files, gzip/bz2/lzma wrappers, spooled files, tar and zip members, a window into a container); the model's variable fdk (what the descriptor underneath says) is part of every emitted index case. zipfile.ZipExtFile only for archives <= 500 bytes (its readline(limit) overshoots in CPython 3.12). Faults of the caller's file object (an exception at a chosen step of ArFile() or of a member call, a short delivery during a member call) are ordinary steps of the histories of all shared legs: the specification's AFault / AShort say what the failed call may leave behind, everything after it is judged like any other call. Spec-level negative controls (ClampReadline/PadOdd/SeekFirst/CommitAfterRead = FALSE, SharedHandlePerPath = TRUE, TrustFd = TRUE) and corrupted control traces are required to fail in every run.",
     design="5 (C06)")
 
 AR_BIN = "/usr/bin/ar"
@@ -359,7 +383,7 @@ def do_call(f, op, args, via=0):
     try:
         v = VARIANTS[op][via](f, args)
     except Exception as e:                 # observation, not a harness failure
-        return {"ret": [], "n": 0, "exc": type(e).__name__}
+        return {"ret": [], "n": 0, "exc": type(e).__name__, "err": e}
     if op in BYTES_OPS:
         if not isinstance(v, bytes):
             return {"ret": [], "n": 0, "exc": "returned-" + type(v).__name__}
@@ -449,6 +473,14 @@ def open_arfile(arch, mode, path, fobj, variant):
     return ArFile(mode="r", fileobj=fobj, encoding=arch.encoding, errors=arch.errors)
 
 
+FAULT_ROT = ["OSError", "private", "ValueError", "KeyError", "EOFError", "InterruptedError"]
+
+
+def count(ctx, key, what):
+    d = ctx.extra.setdefault(key, {})
+    d[what] = d.get(what, 0) + 1
+
+
 class Session:
     """an opened archive + one io.BytesIO per member as the reference library.
     mode: "shared:<kind>" = ArFile(fileobj=<a file object of that kind presenting the archive>) -- every kind of
@@ -462,8 +494,11 @@ class Session:
         self.members = []
         self.ar = None
         mode, _, kind = mode.partition(":")
-        self.mode = mode
+        kind, fsep, fl = kind.partition("+f")      # "+f<j>": the file object is the harness' FaultProxy; j >= 1: ArFile() itself
+        self.mode = mode                           # is first called with a fault at step j of the index walk
         self.kind = kind
+        self.proxy = None
+        self.open_fault = None
         self.closers = []
         Session.count += 1
         n = Session.per_mode[mode] = Session.per_mode.get(mode, 0) + 1     # rotates the constructor variants
@@ -475,24 +510,55 @@ class Session:
                 raise core.MachineryError("file-object kind %r does not read a path" % (kind,))
             fo, self.closers = fobj.open_kind(ctx, arch.forms(ctx), kind,
                                               path=(path or arch.file(ctx)) if mode == "fileobj" else None)
+            if fsep:
+                fo = self.proxy = fobj.FaultProxy(fo)
             kinds = ctx.extra.setdefault("file_object_kinds", {})
             kinds[kind] = kinds.get(kind, 0) + 1
             rel = ctx.extra.setdefault("file_object_descriptor_vs_stream", {})
             r = fobj.fd_relation(fo, len(arch.blob))
             rel[r] = rel.get(r, 0) + 1
         try:
-            if fo is not None:
+            if fo is not None and self.proxy is not None and int(fl or 0) > 0:
+                self.ar = self.open_with_fault(ctx, arch, fo, n, int(fl))
+            elif fo is not None:
                 self.ar = open_arfile(arch, mode, None, fo, n)
             else:
                 self.ar = open_arfile(arch, mode, path or arch.file(ctx), None, n)
             # getmembers() / the members property / iteration are the same list (checked in check_index)
-            self.members = list((self.ar.getmembers(), self.ar.members, self.ar)[(n // 4) % 3])
+            if self.ar is not None:
+                self.members = list((self.ar.getmembers(), self.ar.members, self.ar)[(n // 4) % 3])
         except Exception as e:
             self.error = "opening the archive raised %s: %s" % (type(e).__name__, e)
         self.datas = [m["data"] for m in arch.members]
         self.oracles = [io.BytesIO(d) for d in self.datas]
         if self.error is None and len(self.members) != len(self.datas):
             self.error = "archive has %d members, ArFile lists %d" % (len(self.datas), len(self.members))
+
+    def open_with_fault(self, ctx, arch, fo, n, at):
+        """ArFile(fileobj=f) with f failing at step `at` of the index walk: the caller's exception must come out
+        (observation self.open_fault, logged as an "openfault" event); then the caller rewinds f and builds the
+        archive object again -- a fresh parse of the same input through the same file object"""
+        plan = {"at": at, "exc": FAULT_ROT[n % len(FAULT_ROT)], "after": bool(n % 2)}
+        self.proxy.arm(plan)
+        err = ar = None
+        try:
+            ar = open_arfile(arch, "shared", None, fo, n)
+        except Exception as e:
+            err = e
+        fired = self.proxy.disarm()
+        count(ctx, "faults_injected", "ArFile(): " + ("not reached" if fired is None else "raise at %s" % fired[2]))
+        if fired is None or err is None:       # the walk had fewer steps / the implementation retried by itself
+            if err is not None:
+                raise err
+            return ar
+        if not fobj.chained(err, fired[1]):
+            self.open_fault = type(err).__name__
+            self.error = ("the caller's file object raised %r at step %d (%s) of ArFile(fileobj=f); ArFile raised %s: %s instead"
+                          % (fired[1], fired[3], fired[2], type(err).__name__, err))
+            return None
+        self.open_fault = "injected"
+        fo.seek(0)
+        return open_arfile(arch, "shared", None, fo, n + 1)
 
     def close(self):
         for m in self.members:
@@ -518,7 +584,70 @@ class Session:
             ctx._c06_alive = collections.deque(maxlen=3)
         ctx._c06_alive.append(self)
 
-    def step(self, m, op, args, exp=None, via=None, ctx=None):
+    def faulted(self, m, op, args, via, obs, fired, ftells, ctx):
+        """the caller's file object failed during this call (fired = FaultProxy.fired).  None: the call completed as if
+        nothing had happened (the implementation coped by itself) -- judged as an ordinary call; else (message or None,
+        observation, tell).  Verdicts: the very exception of the file object comes out and the position is where the
+        specification's AFault says (ftells = TLC's admissible positions of the LTS edge; recorded histories are validated
+        by TLC afterwards; the io.BytesIO reference, not moved / moved line by line, is the second oracle); after a short
+        delivery the bytes returned are the member's next bytes and the position is behind them (AShort)."""
+        cs = call_str(m, op, args, via)
+        o = self.oracles[m]
+        start = o.tell()
+        if fired[0] == "raise":
+            if not obs["exc"]:
+                count(ctx, "faults_injected", "raise: absorbed by the implementation") if ctx is not None else None
+                return None
+            where = "the file object's %s() raised %r at step %d of %s" % (fired[2], fired[1], fired[3], cs)
+            obs["fired"] = "raise"
+            injected = fobj.chained(obs.get("err"), fired[1])
+            tells = [safe_tell(x) for x in self.members]
+            if op in BYTES_OPS:
+                adm = [start]
+            else:                                  # readlines / list(): behind 0..all of the remaining lines
+                adm = [start]
+                while o.readline():
+                    adm.append(o.tell())
+                o.seek(start)
+            if ftells is not None and sorted(set(ftells)) != sorted(set(adm)):
+                raise core.MachineryError("specification and io.BytesIO disagree on the positions after a fault in %s: %r / %r" % (cs, ftells, adm))
+            msg = None
+            if not injected:
+                msg = "%s; the call raised %s instead of that exception" % (where, obs["exc"])
+            else:
+                obs["exc"] = "injected"
+            if tells[m] in adm:
+                o.seek(tells[m])
+            elif msg is None:
+                msg = "%s (propagated); tell() is %r afterwards, the specification allows %r" % (where, tells[m], adm)
+            rtells = [x.tell() for x in self.oracles]
+            if msg is None and tells != rtells:
+                msg = "%s (propagated); tell() of the members is %r afterwards, expected %r" % (where, tells, rtells)
+            return msg, obs, tells[m]
+        # short delivery
+        where = "the file object's %s() returned %d of %d bytes at step %d of %s" % (fired[3], fired[2], fired[1], fired[4], cs)
+        tells = [safe_tell(x) for x in self.members]
+        if obs["exc"]:
+            # raising on an unexpectedly short stream is a legitimate reaction: unspecified, never a verdict.  The
+            # member is put back to where the call started (an ordinary seek) so that the history stays comparable.
+            obs["fired"] = "short-exc"
+            try:
+                self.members[m].seek(start, 0)
+            except Exception:
+                pass
+            return None, obs, safe_tell(self.members[m])
+        obs["fired"] = "short"
+        flat = b"".join(obs["ret"])
+        ref = o.read(len(flat))
+        msg = None
+        if ref != flat:
+            msg = "%s; the call returned %s, the member's next %d bytes are %s" % (where, short(obs["ret"]), len(flat), short(ref))
+        rtells = [x.tell() for x in self.oracles]
+        if msg is None and tells != rtells:
+            msg = "%s; the call returned %d bytes and tell() of the members is %r, expected %r" % (where, len(flat), tells, rtells)
+        return msg, obs, tells[m]
+
+    def step(self, m, op, args, exp=None, via=None, ctx=None, fault=None, ftells=None):
         """call on member m (0-based) through API variant `via`; exp = TLC's expectation {"ret", "n",
         "tell"[, "dev"]} or None. Returns (message or None, observation, tell of m).
         readlines(h >= 1) and list(member) have several admissible outcomes: they are judged by TLC
@@ -526,7 +655,21 @@ class Session:
         is moved to where the observed result ends so that later calls stay comparable."""
         if via is None:
             via = next_via(op)
+        armed = fault is not None and self.proxy is not None and op in BYTES_OPS + LIST_OPS
+        if armed:
+            self.proxy.arm(fault)
         obs = do_call(self.members[m], op, args, via)
+        obs["fired"] = None
+        if armed:
+            steps = self.proxy.calls
+            fired = self.proxy.disarm()
+            if ctx is not None:
+                count(ctx, "faults_injected", "not reached (the call had %s steps)" % ("< 3" if steps < 3 else ">= 3") if fired is None
+                      else "%s at %s()" % (fired[0], fired[-2]))
+            if fired is not None:
+                r = self.faulted(m, op, args, via, obs, fired, ftells, ctx)
+                if r is not None:
+                    return r
         cs = call_str(m, op, args, via)
         if op == "readlinesh" or (op == "iter" and not ITER_STRICT[0]):
             o = self.oracles[m]
@@ -579,7 +722,7 @@ class Session:
 _sparse = [0]
 
 
-def pick_mode(i, arch, fd=None, sparse=False):
+def pick_mode(i, arch, fd=None, sparse=False, flaky=False):
     """opening mode of the i-th case over `arch`: by name for odd i, else through a shared file object whose
     KIND rotates over everything ArFile(fileobj=...) accepts (fd: the class the specification's case names).
     The resolved string is what a recorded case stores, so a replayed case uses the same kind.
@@ -589,8 +732,21 @@ def pick_mode(i, arch, fd=None, sparse=False):
     if sparse:
         _sparse[0] += 1
         if _sparse[0] % 3:
-            return "shared:bytesio"
-    return "shared:" + fobj.pick_kind(len(arch.blob), fd)
+            return "shared:bytesio" + flaky_suffix()
+    return "shared:" + fobj.pick_kind(len(arch.blob), fd) + (flaky_suffix() or ("+f" if flaky else ""))
+
+
+_flaky = [0]
+
+
+def flaky_suffix():
+    """every other shared session hands ArFile the harness' FaultProxy around the file object ("+f": calls of the history
+    may be hit by a fault of the file object); every tenth moreover starts with an ArFile() call that fails at step
+    1..9 of the index walk ("+f<j>") and is repeated on the rewound file object"""
+    _flaky[0] += 1
+    if _flaky[0] % 2:
+        return ""
+    return "+f%d" % (1 + (_flaky[0] // 10) % 9) if _flaky[0] % 10 == 0 else "+f"
 
 
 def run_ops(ctx, arch, mode, ops, unspecified=()):
@@ -604,9 +760,17 @@ def run_ops(ctx, arch, mode, ops, unspecified=()):
         for i, o in enumerate(ops):
             if o.get("via") is None:
                 o["via"] = next_via(o["op"])          # recorded: a replayed case uses the same variant
-            msg, _, _ = s.step(o["m"], o["op"], o["args"], o.get("exp"), o["via"], ctx)
+            msg, obs, _ = s.step(o["m"], o["op"], o["args"], o.get("exp"), o["via"], ctx, o.get("fault"), o.get("ftells"))
             if msg:
                 return "call %d of %d (%s mode, member data %s): %s" % (i + 1, len(ops), mode, short(s.datas[o["m"]]), msg)
+            if "resync" in o and s.oracles[o["m"]].tell() != o["resync"]:
+                # a fault edge of the specification has several admissible outcomes (and the fault may not be reached at
+                # all): an ordinary seek puts member and reference where the rest of TLC's path continues
+                try:
+                    s.members[o["m"]].seek(o["resync"], 0)
+                except Exception as e:
+                    return "call %d of %d (%s mode): seek(%d) after %s raised %s" % (i + 1, len(ops), mode, o["resync"], o["op"], type(e).__name__)
+                s.oracles[o["m"]].seek(o["resync"])
         for (m, what) in unspecified:
             f = s.members[m]
             try:
@@ -681,6 +845,26 @@ class Conc:
         if e.get("_dev") is not None:
             o["exp"]["dev"] = self.result(m, e["_dev"]["res"], e["_dev"]["to"])
         return o
+
+    def fault_op(self, g, e, i):
+        """TLC's edge fault(m, kind, k) -> a concrete call of that kind (one of the calls TLC lists from the same state)
+        during which the caller's file object raises: "ftells" = the positions of ALL of TLC's fault edges of that kind
+        from the state (which of them is realised depends on the step the fault hits), "exp" = TLC's expectation for the
+        undisturbed call (the fault may not be reached: then the call is an ordinary one), "resync" = the position
+        TLC's path continues from"""
+        m, kind, k = e["args"]
+        outs = g.out[e["_f"]]
+        cands = [x for x in outs if x["args"][0] == m and x["op"] in (BYTES_OPS if kind == "one" else ("readlines", "iter"))]
+        c = cands[i % len(cands)]
+        o = self.op(c)
+        if kind == "one":
+            at = (1, 2, 3, 2)[i % 4]
+        else:                      # the code takes three steps of the file object per line: hit line k + 1
+            at = 3 * k + 1 + ((i // 2) % 3 if k < len(c["res"]["v"]) else 0)
+        o["fault"] = {"at": at, "exc": FAULT_ROT[i % len(FAULT_ROT)], "after": i % 3 == 2}
+        o["ftells"] = sorted({x["to"][m - 1] * self.K for x in outs if x["op"] == "fault" and x["args"][:2] == [m, kind]})
+        o["resync"] = e["to"][m - 1] * self.K
+        return o, c
 
     def index_exp(self, idx):
         """TLC's index of the model archive -> expectation for the real one (R copies per member: the
@@ -806,10 +990,14 @@ def random_arch(rng, maxmem=5, maxlen=64, nmembers=None):
     return Arch(members, style, encoding=encoding, errors=errors)
 
 
-def random_call(rng, datas, tells, big=False, marks=None):
+READ_OPS = ["readn", "readn", "readn", "readlinen", "readlinen", "readline", "read", "readlines", "iter"]
+
+
+def random_call(rng, datas, tells, big=False, marks=None, m=None, ops=None):
     """one in-domain call (D4) given the current positions of the members; marks: member -> positions of
-    interest (block boundaries of the archive file falling into the member)"""
-    m = rng.randrange(len(datas))
+    interest (block boundaries of the archive file falling into the member); m / ops: restrict the choice"""
+    if m is None:
+        m = rng.randrange(len(datas))
     L = len(datas[m])
     p = tells[m]
     near = [1, 2, 3, max(1, L), L + 1, max(1, L - 1), rng.randrange(1, L + 3)]     # all >= 1 (D4: no read(0))
@@ -817,8 +1005,8 @@ def random_call(rng, datas, tells, big=False, marks=None):
     near += [x - p for x in mk if x - p >= 1]
     if big:                          # arguments around the buffer sizes of the underlying file objects
         near += [4095, 4096, 4097, 8191, 8192, 8193, 65535, 65536, 65537, 131072, 2 * L + 7]
-    op = rng.choice(["read", "readn", "readn", "readline", "readline", "readlinen", "readlinen", "readlines",
-                     "seek", "seek", "seek", "tell", "readlinesh", "iter"] + (["seek", "seek", "readn", "readlinen"] if big else []))
+    op = rng.choice(ops or ["read", "readn", "readn", "readline", "readline", "readlinen", "readlinen", "readlines",
+                            "seek", "seek", "seek", "tell", "readlinesh", "iter"] + (["seek", "seek", "readn", "readlinen"] if big else []))
     if op == "readn":
         args = [rng.choice([-1, -7] + near)]
     elif op == "readlinen":
@@ -835,11 +1023,26 @@ def random_call(rng, datas, tells, big=False, marks=None):
     return (m, op, args)
 
 
+def random_plan(rng, op, nlines):
+    """a fault of the caller's file object during one call: an exception at the first / a middle / the last step (a
+    one-step call seeks, reads, asks the position; a multi-line call does so per line -- if the call has fewer
+    steps the fault is not reached and the call is an ordinary one), before or after the underlying operation took
+    effect; or a short delivery / early end of file at one of its reads"""
+    if rng.random() < 0.3:
+        at = rng.choice([1, 1, 2]) if op in BYTES_OPS else rng.choice([1, 2, max(1, nlines // 2), max(1, nlines - 1), nlines])
+        return {"at": at, "short": rng.choice([0, 1, 2, -1, 5, 100])}
+    if op in BYTES_OPS:
+        at = rng.choice([1, 2, 2, 3])
+    else:
+        at = rng.choice([1, 2, 3, 4, 5, 3 * (nlines // 2) + 2, 3 * nlines - 2, 3 * nlines - 1, 3 * nlines, 3 * nlines + 1])
+    return {"at": max(1, at), "exc": rng.choice(FAULT_ROT), "after": rng.random() < 0.3}
+
+
 def meta_strs(m):
     return [str(m["owner"]), str(m["group"]), str(m["mtime"])]
 
 
-def record(ctx, arch, mode, calls=None, rng=None, n=0, big=False, log=True, pre=(), marks=None):
+def record(ctx, arch, mode, calls=None, rng=None, n=0, big=False, log=True, pre=(), marks=None, episodes=0.25):
     """execute calls on the real classes and log one event per call. calls = None: n random in-domain
     calls are generated on the fly from the positions of the io.BytesIO references (which follow the
     real member after the calls with several admissible outcomes), preceded by the scripted calls `pre`.
@@ -866,26 +1069,82 @@ def record(ctx, arch, mode, calls=None, rng=None, n=0, big=False, log=True, pre=
                     ev["last"].append(first.get(id(s.ar.getmember(m.name)), 0))
             except Exception as e:
                 ev["exc"] = type(e).__name__
+        if s.open_fault is not None:
+            events.append({"op": "openfault", "exc": s.open_fault})
         events.append(ev)
         if not s.error and s.datas:
             k = 0
+            retry = None
+            queue, same = [], None
             while (k < n + len(pre)) if calls is None else (k < len(calls)):
+                plan = None
                 if calls is None and k < len(pre):
-                    m, op, args = pre[k]
+                    m, op, args = pre[k][:3]
+                    plan = pre[k][3] if len(pre[k]) > 3 else None
+                elif calls is None and (queue or (s.proxy is not None and rng.random() < episodes)):
+                    # a fault episode (SIZE_STRESS part 5) as ordinary steps of the history: some reading call at one
+                    # position of a member, the same (or another) reading call at another position during which the
+                    # caller's file object fails, the caller tries again, the history goes on
+                    if not queue:
+                        em = rng.randrange(len(s.datas))
+                        queue = [("seek", em), ("rd", em), ("seek", em), ("flt", em), ("retry", em), ("rd", em)]
+                        same = None
+                    what, em = queue.pop(0)
+                    tl = [o.tell() for o in s.oracles]
+                    if what == "seek" and rng.random() < 0.75:      # mostly inside the data
+                        m, op, args = em, "seek", [rng.randrange(max(1, len(s.datas[em]))), 0]
+                    elif what == "seek":
+                        m, op, args = random_call(rng, s.datas, tl, big, marks, m=em, ops=["seek"])
+                    elif what == "retry":
+                        if retry is None:
+                            continue
+                        m, op, args = retry
+                    elif what == "flt" and same is not None and rng.random() < 0.7:
+                        m, op, args = same
+                    else:
+                        m, op, args = random_call(rng, s.datas, tl, big, marks, m=em, ops=READ_OPS)
+                        same = (m, op, args)
+                    if what == "flt":
+                        o = s.oracles[m]
+                        plan = random_plan(rng, op, s.datas[m][o.tell():].count(b"\n") + 1)
                 elif calls is None:
-                    m, op, args = random_call(rng, s.datas, [o.tell() for o in s.oracles], big, marks)
+                    if retry is not None and rng.random() < 0.6:
+                        m, op, args = retry                 # the caller tries the failed call again
+                    else:
+                        m, op, args = random_call(rng, s.datas, [o.tell() for o in s.oracles], big, marks)
+                        if s.proxy is not None and op in BYTES_OPS + LIST_OPS and rng.random() < 0.3:
+                            o = s.oracles[m]
+                            plan = random_plan(rng, op, s.datas[m][o.tell():].count(b"\n") + 1)
                 else:
-                    m, op, args = calls[k]
+                    m, op, args = calls[k][:3]
+                    plan = calls[k][3] if len(calls[k]) > 3 else None
                 k += 1
+                retry = None
                 if op == "seek" and args[1] == 1 and s.oracles[m].tell() + args[0] < 0:
                     continue            # a recorded relative seek that would leave the domain on this tree
-                made.append([m, op, list(args)])
-                msg, obs, t = s.step(m, op, args, ctx=ctx)
+                if s.proxy is None:
+                    plan = None
+                made.append([m, op, list(args)] + ([plan] if plan else []))
+                before = s.oracles[m].tell()
+                msg, obs, t = s.step(m, op, args, ctx=ctx, fault=plan)
+                if obs["fired"] is not None:
+                    retry = (m, op, args)
+                    if msg and oracle_msg is None:
+                        oracle_msg = "call %d: %s" % (len(made), msg)
+                    if log and obs["fired"] == "short-exc":      # unspecified outcome + the harness' seek back
+                        events.append({"op": "seek", "m": m + 1, "args": [before, 0], "ret": [], "n": 0,
+                                       "tell": t if isinstance(t, int) else -1, "exc": "" if isinstance(t, int) else str(t)})
+                    elif log:
+                        events.append({"op": "fault" if obs["fired"] == "raise" else "short", "m": m + 1,
+                                       "kind": "one" if op in BYTES_OPS else "lines", "args": [op] + [str(a) for a in args],
+                                       "ret": [list(c) for c in obs["ret"]], "n": 0, "tell": t if isinstance(t, int) else -1,
+                                       "exc": obs["exc"] or ("" if isinstance(t, int) else str(t))})
+                    continue
                 if op == "iter" and not ITER_STRICT[0] and not obs["exc"] and len(obs["ret"]) < len(s.last_full):
                     if iter_policy(ctx) != "fixed":
                         iter_deviation(ctx, "%s over %s returned %s" % (call_str(m, op, args), short(s.datas[m]), short(obs["ret"])))
                 if msg and oracle_msg is None:
-                    oracle_msg = "call %d: %s" % (len(events), msg)
+                    oracle_msg = "call %d: %s" % (len(made), msg)
                 if log:
                     events.append({"op": op, "m": m + 1, "args": list(args), "ret": [list(c) for c in obs["ret"]],
                                    "n": obs["n"], "tell": t if isinstance(t, int) else -1,
@@ -900,40 +1159,63 @@ def corrupt(t, how):
     import copy
     t = copy.deepcopy(t)
     ev = t["events"]
+    op0 = [e for e in ev if e["op"] == "open"][0]
+    cev = [e for e in ev if e["op"] not in ("open", "openfault")]
     if how == "last":
-        if ev[0]["last"]:
-            ev[0]["last"][0] = 0
+        if op0["last"]:
+            op0["last"][0] = 0
             return t
     elif how == "size":
-        if ev[0]["members"]:
-            ev[0]["members"][-1]["size"] += 1
+        if op0["members"]:
+            op0["members"][-1]["size"] += 1
             return t
     elif how == "byte":
-        for e in ev[1:]:
+        for e in cev:
             for c in e["ret"]:
                 if c:
                     c[-1] = c[-1] ^ 1 if (c[-1] ^ 1) != 10 and c[-1] != 10 else c[-1] ^ 2
                     return t
     elif how == "tell":
-        for e in ev[1:]:
-            e["tell"] += 1
-            return t
+        for e in cev:
+            if e["op"] not in ("fault", "short"):      # (after a failed readlines() several positions are admissible)
+                e["tell"] += 1
+                return t
     elif how == "dropread":
         # remove a read that returned something when the same member is used again before any
         # absolute seek: every later result/position of that member is then off by its length
-        for i in range(1, len(ev)):
+        for i in range(len(ev)):
             e = ev[i]
             if e["op"] in ("read", "readn", "readline", "readlinen", "readlines") and any(e["ret"]):
                 for f in ev[i + 1:]:
                     if f["m"] == e["m"]:
-                        if f["op"] == "seek" and f["args"][1] != 1:
+                        if (f["op"] == "seek" and f["args"][1] != 1) or f["op"] in ("fault", "short"):
                             break
                         del ev[i]
                         return t
+    elif how == "faultmove":         # a failed one-step call that moved the position
+        for e in cev:
+            if e["op"] == "fault" and e["kind"] == "one":
+                e["tell"] += 1
+                return t
+    elif how == "faultother":        # a failed call from which another exception came out
+        for e in cev:
+            if e["op"] == "fault":
+                e["exc"] = "OSError"
+                return t
+    elif how == "shortskip":         # a short delivery whose bytes are not the next ones
+        for e in cev:
+            if e["op"] == "short" and any(e["ret"]):
+                e["tell"] += 1
+                return t
+    elif how == "openfault":         # ArFile() failed with something else than the file object's exception
+        for e in ev:
+            if e["op"] == "openfault":
+                e["exc"] = "ArError"
+                return t
     return None
 
 
-CONTROL_KINDS = ("last", "size", "byte", "tell", "dropread")
+CONTROL_KINDS = ("last", "size", "byte", "tell", "dropread", "faultmove", "faultother", "shortskip", "openfault")
 
 
 def trace_cfg(ctx):
@@ -978,8 +1260,9 @@ def validate(ctx, traces, with_controls=True):
 def trace_leg(ctx, jobs, label, rng):
     """jobs: [(arch, mode, number of calls)]; record, cross-check with io.BytesIO, let TLC validate"""
     traces, made = [], []
-    for arch, mode, n in jobs:
-        t, omsg, calls = record(ctx, arch, mode, rng=rng, n=n)
+    for job in jobs:
+        arch, mode, n = job[:3]
+        t, omsg, calls = record(ctx, arch, mode, rng=rng, n=n, episodes=job[3] if len(job) > 3 else 0.25)
         traces.append(t)
         made.append(calls)
         if omsg and len(ctx.violations) < 5:
@@ -993,11 +1276,16 @@ def trace_leg(ctx, jobs, label, rng):
     for i in range(len(traces)):
         ctx.distinct.add((label, i))
     for i in rejected[:5]:
-        arch, mode, _ = jobs[i - 1]
+        arch, mode = jobs[i - 1][:2]
         t = traces[i - 1]
         at = info.get(i, 0)
         ev = t["events"][at] if at < len(t["events"]) else None
-        what = ("ArFile listing %s" % short(ev, 600)) if at == 0 else "%s -> %s" % (call_str(ev["m"] - 1, ev["op"], ev["args"]), short(ev, 400))
+        if ev is None or ev["op"] in ("open", "openfault"):
+            what = "ArFile listing %s" % short(ev, 600)
+        elif ev["op"] in ("fault", "short"):
+            what = "member[%d].%s%s hit by a fault of the file object -> %s" % (ev["m"] - 1, ev["args"][0], tuple(ev["args"][1:]), short(ev, 400))
+        else:
+            what = "%s -> %s" % (call_str(ev["m"] - 1, ev["op"], ev["args"]), short(ev, 400))
         ctx.violation({"kind": "calls", "arch": arch.to_json(), "mode": mode, "calls": made[i - 1],
                        "first_unexplained_event": at + 1},
                       "%s archive, %s mode: recorded history not explained by ArMemberRef at event %d (%s); member data %s"
@@ -1053,7 +1341,7 @@ def big_leg(ctx, rng, narch, ncalls):
             m.update(name=rng.choice(NAME_POOL), raw=None, data=big_data(rng, n))
             members.append(m)
         arch = Arch(members, rng.choice(["gnu", "bsd"]))
-        mode = pick_mode(i, arch)
+        mode = pick_mode(i, arch, flaky=i % 8 != 0)
         _, omsg, calls = record(ctx, arch, mode, rng=rng, n=ncalls, big=True, log=False)
         nbig += 1
         ctx.case_seen(("big", i), True)
@@ -1062,6 +1350,45 @@ def big_leg(ctx, rng, narch, ncalls):
                           "size-stress archive (member sizes %r), %s mode: %s" % (sizes, mode, omsg))
     ctx.extra["size_stress_archives"] = nbig
     return nbig
+
+
+# ------------------------------------------------------------------ faults of the caller's file object (SIZE_STRESS part 5)
+
+FAULT_SIZES = [5, 8, 13, 21, 34, 64, 100, 257, 600, 4097, 8193, 20000]
+
+
+def fault_arch(rng, small):
+    members = []
+    for _ in range(rng.choice([1, 2, 2, 3])):
+        n = rng.choice(FAULT_SIZES[:6] if small else FAULT_SIZES)
+        m = rand_meta(rng)
+        d = bytes(rng.randrange(256) for _ in range(n)) if n <= 600 and rng.random() < 0.5 else big_data(rng, n)
+        m.update(name=rng.choice(NAME_POOL), raw=None, data=d)
+        members.append(m)
+    return Arch(members, rng.choice(["gnu", "bsd"]))
+
+
+def fault_leg(ctx, rng, narch, ncalls):
+    """histories made of fault episodes only (record(): reading call at one position, a reading call at another one hit by
+    a fault of the caller's file object -- exception at its first / middle / last step or a short delivery --, the retry,
+    a further call), on members of 5 bytes .. 20 KB through every kind of file object, some sessions starting with a failed
+    ArFile() call.  Volume leg judged against io.BytesIO like the size-stress leg (a failed call does not move the
+    reference); the same episodes on small members are part of the traces validated by TLC."""
+    n = 0
+    for i in range(narch):
+        if len(ctx.violations) >= 5:
+            break
+        arch = fault_arch(rng, small=False)
+        mode = pick_mode(0, arch, flaky=True)
+        _, omsg, calls = record(ctx, arch, mode, rng=rng, n=ncalls, big=i % 3 == 0, log=False, episodes=1.0)
+        n += 1
+        ctx.case_seen(("faults", i), True)
+        if omsg:
+            ctx.violation({"kind": "calls", "arch": arch.to_json(), "mode": mode, "calls": calls, "big": True},
+                          "history with faults of the caller's file object (member sizes %r), %s mode: %s"
+                          % ([len(m["data"]) for m in arch.members], mode, omsg))
+    ctx.extra["fault_episode_histories"] = n
+    return n
 
 
 # ------------------------------------------------------------------ block-boundary alignment (SIZE_STRESS part 4)
@@ -1151,7 +1478,7 @@ def aligned_leg(ctx, rng, quick):
                         pre.append((m, "readline", []))
                 if x >= 1:                               # reads that END at the boundary
                     pre += [(m, "seek", [max(0, x - 3), 0]), (m, "readn", [min(3, x)]), (m, "readline", [])]
-        mode = "byname" if i % 4 == 3 else pick_mode(0, arch)
+        mode = "byname" if i % 4 == 3 else pick_mode(0, arch, flaky=i % 8 != 0)
         _, omsg, calls = record(ctx, arch, mode, rng=rng, n=12, big=True, log=False, pre=pre, marks=marks)
         done[what] = done.get(what, 0) + 1
         ctx.case_seen(("aligned", T, what), True)
@@ -1385,7 +1712,8 @@ def lts_per_archive(edges):
             e["dev"] = {"res": dev[0]["res"], "to": dev[0]["to"]} if dev else None
             keep.append(e)
         g = LTS(keep, [0] * len(cells))
-        for e in g.edges:
+        for i, e in enumerate(g.edges):
+            e["_n"] = i
             if e["op"] == "iter":
                 e["_dev"] = e.pop("dev")
         out[k] = (cells, g)
@@ -1415,6 +1743,7 @@ def run(ctx):
         "each model cell is concretized to 1-5 bytes (sampled, seeded); member names are ASCII and fit the 16-byte header field",
         "trusted: TLC, the harness' ar writer, io.BytesIO (second oracle), os.stat for archives written by ar(1), the standard library's file objects (gzip/bz2/lzma/tarfile/zipfile/tempfile/io) presenting the archive bytes",
         "file objects given to ArFile(fileobj=) are seekable binary streams whose read(n) returns n bytes unless the stream ends and whose readline(n) honours n; zipfile.ZipExtFile (readline(limit) overshoots on long lines in CPython 3.12) only for archives of <= 500 bytes",
+        "faults of the caller's file object: one fault per call (raise at the at-th seek/read/readline/tell, or one short read/readline), injected by a proxy in front of the real file object; short deliveries during ArFile() itself are out of domain; after a short delivery only 'own next bytes, position behind them' is required; an exception raised in reaction to a short delivery is unspecified",
         "process level: members of an ArFile whose path was rewritten after the object was built are unspecified (executed, not judged); every object built after the last rewrite is judged, whatever was opened or left unclosed before",
     ]
     # 1. design level: the implementation-layer model refines the reference (any history), index exact
@@ -1425,16 +1754,19 @@ def run(ctx):
 
     def design_runs():
         try:
-            r = ctx.tlc_must_hold("ArMember", "MC_ArMember_quick.cfg" if quick else "MC_ArMember.cfg", workers=8)
+            r = ctx.tlc_must_hold("ArMember", "MC_ArMember_quick.cfg" if quick else "MC_ArMember.cfg", workers=4)
             design["states"] = r.distinct
             design["states"] += ctx.tlc_must_hold("ArMember", "MC_ArMember_quick_byname.cfg" if quick
-                                                  else "MC_ArMember_byname.cfg", workers=4 if quick else 8).distinct
+                                                  else "MC_ArMember_byname.cfg", workers=4).distinct
             negative_control(ctx, "MC_ArMember_quick.cfg", "ClampReadline", ("Refines", "SameResult"))
             # __iter__ as before 225a5e1 (one line per iterator) must not refine the reference
             negative_control(ctx, "MC_ArMember_quick.cfg", "IterYieldsAll", ("Refines", "SameResult"))
             # an index walk that asks the DESCRIPTOR underneath the file object for the size of the archive
             # must lose members as soon as the descriptor names a smaller file (a decompressing wrapper)
             negative_control(ctx, "MC_ArMember_index.cfg", "TrustFd", ("IndexExact",), off="FALSE", on="TRUE")
+            # a position committed BEFORE the underlying read succeeded: a call that fails inside the caller's file
+            # object leaves the member somewhere else although nothing was returned
+            negative_control(ctx, "MC_ArMember_quick.cfg", "CommitAfterRead", ("Refines",))
             if not quick:
                 negative_control(ctx, "MC_ArMember_quick.cfg", "PadOdd", ("IndexExact",))
                 negative_control(ctx, "MC_ArMember_quick.cfg", "SeekFirst", ("Refines", "SameResult", "Isolation"))
@@ -1465,9 +1797,14 @@ def run_binding(ctx, quick, rng):
     t_phase = [time.time()]
     phases = ctx.extra.setdefault("phase_s", {})
 
+    cpu = ctx.extra.setdefault("phase_python_cpu_s", {})
+    c_phase = [time.process_time()]
+
     def phase(name):
         phases[name] = round(time.time() - t_phase[0], 1)
+        cpu[name] = round(time.process_time() - c_phase[0], 1)     # (other jobs on the machine do not count here)
         t_phase[0] = time.time()
+        c_phase[0] = time.process_time()
 
     # 2. index cases (and IndexExact for <= 3 members with duplicate names) -- in a thread, while
     # 3. the complete reference LTS is emitted
@@ -1505,7 +1842,7 @@ def run_binding(ctx, quick, rng):
                                     "SeekMax": 3 if quick else 4, "index": {"MaxMembers": 3, "Names": 2, "sizes": [0, 1, 2]},
                                     "impl_layer": ("shared mode: MaxData 2; by-name mode: MaxData 1, SeekMax 2" if quick
                                                    else "shared mode: MaxData 3, SeekMax 4; by-name mode: MaxData 2, SeekMax 3")}
-    missing = [o for o in ("read", "readn", "readline", "readlinen", "readlines", "seek", "tell", "iter") if not ops_count.get(o)]
+    missing = [o for o in ("read", "readn", "readline", "readlinen", "readlines", "seek", "tell", "iter", "fault") if not ops_count.get(o)]
     if not nedges or missing:
         raise core.MachineryError("reference LTS incomplete: %d EDGE lines, actions never taken: %r" % (nedges, missing))
 
@@ -1566,6 +1903,8 @@ def run_binding(ctx, quick, rng):
             else:
                 kind, measured = fobj.pick_kind_for(conc.arch.forms(ctx), cfd)
                 mode = "shared:" + kind
+                if (ci + j) % 2:          # ArFile(fileobj=f) first fails at step 1..8 of the index walk, then is repeated
+                    mode += "+f%d" % (1 + (ci // 2 + j) % 8)
                 if measured is not None and measured != cfd:      # a tiny archive does not shrink
                     ctx.extra["index_replays_descriptor_class_not_concretizable"] = \
                         ctx.extra.get("index_replays_descriptor_class_not_concretizable", 0) + 1
@@ -1607,7 +1946,7 @@ def run_binding(ctx, quick, rng):
         if len(ctx.violations) >= 5:
             break
         concs = [Conc(rng, cells, canonical=(j == 0)) for j in range(nconc)]
-        paths = paths_without(g, "iter") if not ITER_STRICT[0] else g.paths()   # (a tolerated deviation of
+        paths = paths_without(g, ("iter", "fault") if not ITER_STRICT[0] else ("fault",))   # (a tolerated deviation of
         ai += 1                               # list(member) would leave the model: then only as the last call)
         ncell = sum(len(d) for d in cells)
         bigk = [x for x in BIG_K if x * ncell <= (4 << 20) and (x < 500000 or ncell <= 2)]
@@ -1615,7 +1954,7 @@ def run_binding(ctx, quick, rng):
         every = 37 if quick else 11
 
         def replay_path(path, conc, mode, what, unspecified=()):
-            ops = [conc.op(e) for e in path]
+            ops = [conc.op(e) if e["op"] != "fault" else conc.fault_op(g, e, e["_n"] + ai)[0] for e in path]
             msg = run_ops(ctx, conc.arch, mode, ops, unspecified)
             if msg:
                 ctx.violation({"kind": "ops", "arch": conc.arch.to_json(), "mode": mode, "ops": ops,
@@ -1626,7 +1965,20 @@ def run_binding(ctx, quick, rng):
         bad = False
         for idx, e in enumerate(g.edges):
             path = paths[e["_f"]] + [e]
+            if e["op"] == "fault":
+                # behind a short random history of the same archive (what earlier calls left inside the implementation
+                # is not part of the abstract state), and then the caller tries the same call again
+                pre = g.walk(rng, g.init, 3, weight=lambda x: 0 if x["op"] in ("fault", "iter", "tell") else 3 if x["op"] != "seek" else 1)
+                back = return_path(g, pre[-1]["_t"] if pre else g.init, e["_f"])
+                if back is not None:
+                    path = pre + back + [e]
+                c = conc_call(g, e, e["_n"] + ai)
+                again = edge_from(g, e["_t"], c["op"], c["args"])
+                if again is not None:
+                    path = path + [again]
             for j, conc in enumerate(concs):
+                if quick and e["op"] == "fault" and j != idx % 2:
+                    continue                  # quick: fault edges alternate between the canonical and the random concretization
                 if quick or j > 0:
                     todo = [pick_mode(idx + j, conc.arch, sparse=True)]
                 else:
@@ -1650,7 +2002,7 @@ def run_binding(ctx, quick, rng):
         if cells and not bad:
             for w in range(nwalk):
                 conc = concs[w % len(concs)] if w % 3 else (bigconc if w == 3 and bigconc is not None else Conc(rng, cells))
-                path = g.walk(rng, g.init, wlen, weight=lambda x: (3 if x["from"] != x["to"] else 1) if ITER_STRICT[0] or x["op"] != "iter" else 0)
+                path = fault_walk(g, rng, wlen, ai, lambda x: (3 if x["from"] != x["to"] or x["op"] == "fault" else 1) if ITER_STRICT[0] or x["op"] != "iter" else 0)
                 if w % 2 and path:            # end with list(member) / for line in member
                     its = [x for x in g.out.get(path[-1]["_t"], []) if x["op"] == "iter"]
                     if its:
@@ -1697,7 +2049,10 @@ def run_binding(ctx, quick, rng):
             arch = random_arch(rng, nmembers=rng.choice([99, 100, 101]))      # count stress
         else:
             arch = random_arch(rng, maxlen=64 if i % 10 else 257)
-        jobs.append((arch, pick_mode(i, arch), nops))
+        jobs.append((arch, pick_mode(i, arch, flaky=i % 8 != 0), nops))
+    for i in range(60 if quick else 600):      # histories of fault episodes on small members (see fault_leg)
+        arch = fault_arch(rng, small=True)
+        jobs.append((arch, pick_mode(0, arch, flaky=True), 13, 1.0))
     traces = trace_leg(ctx, jobs, "random", rng)
     if traces:
         t = max(traces[:20], key=lambda t: len(t["mem"]) if len(t["mem"]) < 20 else 0)
@@ -1709,6 +2064,8 @@ def run_binding(ctx, quick, rng):
     n_big = big_leg(ctx, rng, 30 if quick else 400, 40 if quick else 60)
     ctx.traces += n_big
     phase("size_stress_leg")
+    ctx.traces += fault_leg(ctx, rng, 800 if quick else 6000, 13)
+    phase("fault_leg")
     ctx.traces += aligned_leg(ctx, rng, quick)
     phase("aligned_leg")
 
@@ -1725,15 +2082,63 @@ def run_binding(ctx, quick, rng):
             ctx.extra["ar_binary"] = "skipped: %s not present" % AR_BIN
 
 
+def edge_from(g, st, op, args):
+    for x in g.out.get(st, []):
+        if x["op"] == op and x["args"] == args:
+            return x
+    return None
+
+
+def return_path(g, st, to):
+    """absolute seeks leading from state st to state `to` of the LTS (positions per member)"""
+    path = []
+    want = g.states[to]
+    for m in range(len(want)):
+        if g.states[st][m] != want[m]:
+            x = edge_from(g, st, "seek", [m + 1, want[m], 0])
+            if x is None:
+                return None
+            path.append(x)
+            st = x["_t"]
+    return path if st == to else None
+
+
+def conc_call(g, e, i):
+    """the ordinary edge standing for the concrete call Conc.fault_op(g, e, i) makes"""
+    m, kind, _ = e["args"]
+    cands = [x for x in g.out[e["_f"]] if x["args"][0] == m and x["op"] in (BYTES_OPS if kind == "one" else ("readlines", "iter"))]
+    return cands[i % len(cands)]
+
+
+def fault_walk(g, rng, n, ai, weight):
+    """random walk through TLC's LTS; after a fault edge the caller usually tries the very same call again"""
+    st = g.init
+    path = []
+    while len(path) < n:
+        outs = g.out.get(st)
+        if not outs:
+            break
+        e = rng.choices(outs, weights=[weight(x) for x in outs])[0]
+        path.append(e)
+        st = e["_t"]
+        if e["op"] == "fault" and rng.random() < 0.7:
+            c = conc_call(g, e, e["_n"] + ai)
+            again = edge_from(g, st, c["op"], c["args"])
+            if again is not None:
+                path.append(again)
+                st = again["_t"]
+    return path
+
+
 def paths_without(g, op):
-    """shortest path from the initial state to every state, not using edges of action `op`"""
+    """shortest path from the initial state to every state, not using edges of the actions `op`"""
     from collections import deque
     p = {g.init: []}
     q = deque([g.init])
     while q:
         st = q.popleft()
         for e in g.out.get(st, []):
-            if e["op"] != op and e["_t"] not in p:
+            if e["op"] not in op and e["_t"] not in p:
                 p[e["_t"]] = p[st] + [e]
                 q.append(e["_t"])
     return p
@@ -1771,7 +2176,7 @@ def replay(ctx, case):
         if case["kind"] == "index":
             return check_index(ctx, arch, case["mode"], case["idx"])
         if case["kind"] == "calls":
-            calls = [(c[0], c[1], c[2]) for c in case["calls"]]
+            calls = [tuple(c) for c in case["calls"]]
             big = bool(case.get("big"))
             t, omsg, _ = record(ctx, arch, case["mode"], calls, big=big, log=not big)
             if omsg:
